@@ -23,11 +23,15 @@ command-line targets, test pass, keepSrcs, removal test, sorting), `addTarget`, 
 `isIncluded`, with parameters named by position and locals by order of declaration. -/
 def FactsOK : Bool :=
   PlzVerif.Generated.C25.passes ==
-    ["range GRAPH.AllTargets() { if (v01.IsBinary && (!v01.IsTest() || INCLUDETESTS)) || v01.HasAnyLabel(KEEPLABELS) || anyInclude(NAMED, v01.Label) || v01.Label.Subrepo != \"\" { addTarget(GRAPH, KEEP, v01) } }",
+    ["KEEP := targetMap{}",
+     "range GRAPH.AllTargets() { if (v01.IsBinary && (!v01.IsTest() || INCLUDETESTS)) || v01.HasAnyLabel(KEEPLABELS) || anyInclude(NAMED, v01.Label) || v01.Label.Subrepo != \"\" { addTarget(GRAPH, KEEP, v01) } }",
      "range GRAPH.PackageMap() { for _, v02 := range v01.Subincludes { addTarget(GRAPH, KEEP, GRAPH.TargetOrDie(v02)) } }",
      "range ARGS { if v01.IsAllSubpackages() { for _, v02 := range GRAPH.PackageMap() { if v02.IsIncludedIn(v01) { for _, v01 := range v02.AllTargets() { addTarget(GRAPH, KEEP, v01) } } } } else { addTarget(GRAPH, KEEP, GRAPH.Target(v01)) } }",
      "if !INCLUDETESTS { for v01 := true; v01; { v02 := len(KEEP) for _, v03 := range GRAPH.AllTargets() { if v03.IsTest() { for _, v04 := range publicDependencies(GRAPH, v03) { if KEEP[v04] && !v04.TestOnly { addTarget(GRAPH, KEEP, v03) } else if v04.TestOnly { addTarget(GRAPH, KEEP, v04) } } } } v01 = len(KEEP) != v02 } }",
+     "KEEPSRCS := map[string]bool{}",
      "range KEEP { for _, v02 := range v01.AllLocalSourcePaths() { KEEPSRCS[v02] = true } ; for _, v03 := range v01.AllData() { if v04, v05 := v03.(core.FileLabel); v05 { KEEPSRCS[v04.Paths(GRAPH)[0]] = true } } }",
+     "RET := make(core.BuildLabels, 0, len(KEEP))",
+     "RETSRCS := []string{}",
      "range GRAPH.AllTargets() { if v02 := gcSibling(GRAPH, v01); !v02.HasParent() && !KEEP[v02] && !KEEP[v01] && isIncluded(v02, FILTER) { RET = append(RET, v01.Label) for _, v03 := range v01.AllLocalSourcePaths() { if !KEEPSRCS[v03] { RETSRCS = append(RETSRCS, v03) } } } }",
      "sort.Sort(RET)",
      "sort.Strings(RETSRCS)",
